@@ -38,6 +38,8 @@ def _fold_append_loops(body: list) -> list:
         st = body[i]
         nxt = body[i + 1] if i + 1 < len(body) else None
         folded = None
+        if isinstance(st, ast.AnnAssign) and st.value is not None and st.simple and isinstance(st.target, ast.Name):
+            st = ast.copy_location(ast.Assign(targets=[st.target], value=st.value), st)        # `v: list[T] = []` binds like `v = []`
         if isinstance(st, ast.Assign) and len(st.targets) == 1 and isinstance(st.targets[0], ast.Name) and isinstance(nxt, ast.For) and not nxt.orelse \
                 and isinstance(nxt.target, ast.Name) and len(nxt.body) == 1 and (
                     (isinstance(st.value, ast.List) and not st.value.elts) or
@@ -62,11 +64,54 @@ def _fold_append_loops(body: list) -> list:
             out.append(folded)
             i += 2
         else:
-            out.append(st)
+            out.append(body[i])
             i += 1
     return out
 
 
+def _unfold_quantifiers(body: list) -> list:
+    """``return all(e for x in it if c)`` is read as ``for x in it: if c: if not e: return False`` + ``return True`` (and any / not all /
+    not any accordingly): the quantifier and its early-exit loop have the same events, frames and returns."""
+    out = []
+    for st in body:
+        out.append(st)
+        if not (isinstance(st, ast.Return) and st.value is not None):
+            continue
+        v, neg = st.value, False
+        while isinstance(v, ast.UnaryOp) and isinstance(v.op, ast.Not):
+            v, neg = v.operand, not neg
+        if not (isinstance(v, ast.Call) and isinstance(v.func, ast.Name) and v.func.id in ("all", "any") and len(v.args) == 1 and not v.keywords
+                and isinstance(v.args[0], (ast.GeneratorExp, ast.ListComp))):
+            continue
+        comp = v.args[0]
+        is_all = v.func.id == "all"
+        hit = ast.Return(value=ast.Constant(value=(not is_all) != neg))            # the value returned at the first deciding element
+        test = ast.UnaryOp(op=ast.Not(), operand=comp.elt) if is_all else comp.elt
+        inner: ast.stmt = ast.If(test=test, body=[hit], orelse=[])
+        for g in reversed(comp.generators):
+            if g.is_async:
+                inner = None
+                break
+            for c in reversed(g.ifs):
+                inner = ast.If(test=c, body=[inner], orelse=[])
+            inner = ast.For(target=g.target, iter=g.iter, body=[inner], orelse=[])
+        if inner is None:
+            continue
+        last = ast.Return(value=ast.Constant(value=is_all != neg))
+        for n in (inner, last):
+            for sub in ast.walk(n):
+                if not hasattr(sub, "lineno"):
+                    ast.copy_location(sub, st)
+            ast.fix_missing_locations(n)
+        out[-1:] = [inner, last]
+    return out
+
+
+NUMPY_ELEMENTWISE = {"logical_or": ("bin", "|"), "bitwise_or": ("bin", "|"), "logical_and": ("bin", "&"), "bitwise_and": ("bin", "&"),
+                     "logical_xor": ("bin", "^"), "bitwise_xor": ("bin", "^"),
+                     "logical_not": ("un", "~"), "invert": ("un", "~"), "bitwise_not": ("un", "~"),
+                     "add": ("bin", "+"), "subtract": ("bin", "-"), "multiply": ("bin", "*"), "divide": ("bin", "/"), "true_divide": ("bin", "/"),
+                     "negative": ("un", "-")}
 NUMPY_REDUCTIONS = {"sum", "max", "min", "mean", "all", "any", "argmin", "argmax", "prod", "std", "cumsum", "cumprod"}
 
 
@@ -82,8 +127,9 @@ def _fold_returns(returns: list, depth: int, falls_through: bool):
     """The value of a function as ONE term: `if c: return A` ... `return B` is `A if c else B` (guards relative to the function body)."""
     result = ("const", None) if falls_through or not returns else None
     for value, rctx in reversed(returns):
-        guards = [fr for fr in rctx[depth:] if fr[0] == "if"]
-        if any(fr[0] in ("for", "while", "comp", "try", "with") for fr in rctx[depth:]):
+        # implied guards (the rest of a block after `if c: return`) are the complement of an earlier return, which wraps this one anyway
+        guards = [fr for fr in rctx[depth:] if fr[0] == "if" and not (len(fr) > 4 and fr[4] == "implied")]
+        if any(fr[0] in ("for", "while", "comp", "try") for fr in rctx[depth:]):
             return ("unknown", "return inside a loop of an inlined helper")
         if result is None:
             result = value
@@ -108,13 +154,79 @@ def _fuse(c):
     return c
 
 
+def fuse_deep(t, stop=lambda x: False):
+    """Rule-level normal form of selections over paired lists (terms the rule opts in for; ``stop(t)`` keeps a sub-term opaque):
+
+      * a single-generator comprehension over a list/generator comprehension is one comprehension over the inner iterable
+        ([f(y) for y in [g(x) for x in X]] -> [f(g(x)) for x in X]);
+      * a comprehension over zip(X, [g(x) for x in X], ...) iterates over X itself, the tuple positions replaced by x, g(x), ...
+
+    so that `pair every candidate with its key, then filter the pairs` and `filter the candidates by their key` are one term."""
+    if not isinstance(t, tuple) or not t:
+        return t
+    if isinstance(t[0], str) and stop(t):
+        return t
+    t = tuple(fuse_deep(x, stop) if isinstance(x, tuple) else x for x in t)
+    while len(t) == 4 and t[0] == "comp" and len(t[3]) == 1 and isinstance(t[3][0], tuple) and len(t[3][0]) == 3:
+        elem, it, conds = t[3][0]
+        if not isinstance(it, tuple):
+            break
+        if len(it) == 4 and it[0] == "call" and it[1] == ("global", "zip") and not it[3] and len(it[2]) >= 2:
+            base = None
+            for cand in it[2]:
+                if all(y == cand or (len(y) == 4 and y[0] == "comp" and y[1] in ("list", "gen") and len(y[3]) == 1 and y[3][0][1] == cand and not y[3][0][2])
+                       for y in it[2]):
+                    base = cand
+                    break
+            if base is None:
+                break
+            e2 = ("elem", base, elem[2])
+            comps = [e2 if y == base else _substitute(y[2], {y[3][0][0]: e2}) for y in it[2]]
+            mapping = {("index", elem, ("const", i)): c for i, c in enumerate(comps)}
+            mapping[elem] = ("tuple", tuple(comps))
+            t = ("comp", t[1], _substitute(t[2], mapping), ((e2, base, tuple(_substitute(q, mapping) for q in conds)),))
+            continue
+        if len(it) == 4 and it[0] == "comp" and it[1] in ("list", "gen") and len(it[3]) == 1 and not stop(it):
+            ielem, iit, iconds = it[3][0]
+            mapping = {elem: it[2]}
+            t = ("comp", t[1], _substitute(t[2], mapping), ((ielem, iit, tuple(iconds) + tuple(_substitute(q, mapping) for q in conds)),))
+            continue
+        break
+    return t
+
+
 def polarity(t):
     """Strip leading negations of a test: ``not not not X`` -> (X, False).  Guards and phi/ifexp terms are recorded on the
     positive test, so ``if c: A else: B`` and ``if not c: B else: A`` have the same frames and the same terms."""
     pos = True
-    while isinstance(t, tuple) and len(t) == 3 and t[0] == "un" and t[1] == "not":
-        t, pos = t[2], not pos
+    while isinstance(t, tuple):
+        if len(t) == 3 and t[0] == "un" and t[1] == "not":
+            t, pos = t[2], not pos
+        elif len(t) == 4 and t[0] == "call" and t[1] == ("global", "bool") and len(t[2]) == 1 and not t[3] and t[2][0][0] != "star":
+            t = t[2][0]             # a test is read for its truth value: bool(x) tests like x
+        elif len(t) == 4 and t[0] == "ifexp" and t[3] == ("const", False):
+            t = ("bool", "and", _flat("and", (t[1], polarity_free(t[2]))))       # as a test, `x if c else False` reads like `c and x`
+        elif len(t) == 4 and t[0] == "ifexp" and t[2] == ("const", True):
+            t = ("bool", "or", _flat("or", (t[1], polarity_free(t[3]))))         # and `True if c else y` like `c or y`
+        else:
+            break
     return t, pos
+
+
+def polarity_free(t):
+    """The canonical test form of ``t`` as a sub-test (negation kept in place)."""
+    u, pos = polarity(t)
+    return u if pos else ("un", "not", u)
+
+
+def _flat(op: str, parts: tuple) -> tuple:
+    out = []
+    for p in parts:
+        if isinstance(p, tuple) and len(p) == 3 and p[0] == "bool" and p[1] == op:
+            out.extend(p[2])
+        else:
+            out.append(p)
+    return tuple(out)
 CMPOPS = {ast.Eq: "==", ast.NotEq: "!=", ast.Lt: "<", ast.LtE: "<=", ast.Gt: ">", ast.GtE: ">=",
           ast.Is: "is", ast.IsNot: "is not", ast.In: "in", ast.NotIn: "not in"}
 
@@ -201,9 +313,15 @@ class FunctionTerms:
             if e.kind in kinds:
                 yield e
 
+    def result(self) -> Term:
+        """The value of the function as ONE term: early returns under guards are folded into a conditional expression
+        (`if c: return A` ... `return B` is `A if c else B`); ('unknown', ...) when a return sits inside a loop / try / with."""
+        rets = [(e.value, e.ctx) for e in self.of_kind("return")]
+        return _fold_returns(rets, 0, falls_through=not _terminates(self.ref.node.body))
+
     # ------------------------------------------------------------------ statements
     def _block(self, body: list[ast.stmt], env: dict[str, Term], ctx: tuple) -> None:
-        body = _fold_append_loops(body)
+        body = _unfold_quantifiers(_fold_append_loops(body))
         for s in body:
             self._stmt_(s, env, ctx)
             # implied guard: after ``if t: return`` the rest of the block runs under ``not t``
@@ -524,10 +642,8 @@ class FunctionTerms:
     # ------------------------------------------------------------------ expressions
     def ev_slice(self, sl: ast.expr, env: dict[str, Term], ctx: tuple) -> Term:
         if isinstance(sl, ast.Slice):
-            return ("slice",
-                    self.ev(sl.lower, env, ctx) if sl.lower is not None else None,
-                    self.ev(sl.upper, env, ctx) if sl.upper is not None else None,
-                    self.ev(sl.step, env, ctx) if sl.step is not None else None)
+            parts = [self.ev(p, env, ctx) if p is not None else None for p in (sl.lower, sl.upper, sl.step)]
+            return ("slice",) + tuple(None if p == ("const", None) else p for p in parts)
         if isinstance(sl, ast.Tuple):
             return ("tuple", tuple(self.ev_slice(e, env, ctx) for e in sl.elts))
         return self.ev(sl, env, ctx)
@@ -543,6 +659,10 @@ class FunctionTerms:
             if e.id in self.locals:
                 return ("unknown", e.id)
             q = self.prog.resolve(self.module, e)
+            if q is not None:
+                named, value = self.prog.named_constant(q)     # EPS = 1e-9 at module level, known to no rule: read through
+                if named:
+                    return ("const", value)
             return ("global", q or e.id)
         if isinstance(e, ast.Attribute):
             d = _dotted(e)
@@ -553,6 +673,9 @@ class FunctionTerms:
                 if head not in env and head not in self.locals:
                     q = self.prog.resolve(self.module, e)
                     if q is not None:
+                        named, value = self.prog.named_constant(q)
+                        if named:
+                            return ("const", value)
                         return self._global_chain(q)
             base = self.ev(e.value, env, ctx)
             if base[0] == "global" and not (base[1].startswith("incomplete_cooperative.") and self.prog.global_value(base[1]) is not None):
@@ -585,6 +708,9 @@ class FunctionTerms:
                         i += 1
                     kws = [(k, v) for k, v in kws if k in kd]
             t = ("call", f, tuple(args), tuple(kws))
+            if f[0] == "ifexp":
+                # (g if c else h)(x) is recorded as g(x) if c else h(x)
+                t = ("ifexp", f[1], ("call", f[2], tuple(args), tuple(kws)), ("call", f[3], tuple(args), tuple(kws)))
             name = e.func.attr if isinstance(e.func, ast.Attribute) else (e.func.id if isinstance(e.func, ast.Name) else None)
             recv = f[1] if f[0] == "attr" else None
             self.emit("call", e, ctx, name=name, func=f, args=tuple(args), kwargs=dict(kws), term=t, recv=recv,
@@ -592,7 +718,18 @@ class FunctionTerms:
             canon = self._canonical_iteration(f, args, kws)
             if canon is not None:
                 return _fuse(canon)
-            inl = self._inline_call(f, args, kws, env, ctx)
+            # the builtin slice(a, b, c) is recorded like the subscript form a:b:c
+            if f == ("global", "slice") and 1 <= len(args) <= 3 and not kws and not any(a[0] == "star" for a in args):
+                lo, hi, step = (None, args[0], None) if len(args) == 1 else (tuple(args) + (None,))[:3]
+                return ("slice",) + tuple(None if p == ("const", None) else p for p in (lo, hi, step))
+            # np.logical_or(a, b) / np.invert(m) / np.add(a, b) ... are recorded in operator form a | b / ~m / a + b
+            if f[0] == "global" and f[1].startswith("numpy.") and f[1][6:] in NUMPY_ELEMENTWISE and not kws and not any(a[0] == "star" for a in args):
+                shape, op = NUMPY_ELEMENTWISE[f[1][6:]]
+                if shape == "bin" and len(args) == 2:
+                    return ("bin", op, args[0], args[1])
+                if shape == "un" and len(args) == 1:
+                    return ("un", op, args[0])
+            inl = self._inline_call(f, args, kws, env, ctx) if f[0] != "ifexp" else None
             if inl is not None:
                 return inl
             # x.sum() / x.max(axis=1) / x.argmin() ... are recorded as the NumPy function form np.sum(x) / np.max(x, axis=1) / np.argmin(x)
